@@ -15,10 +15,10 @@ for s in /verif/seeded/*/; do
   for p in $PROPS; do
     # only the own property and the codec/list neighbours are worth the time
     case "$own:$p" in
-      $p:$p|C01:C02|C02:C01|C02:C07|C07:C02|C07:C01|C01:C07|C15:C01|C15:C20|C20:C15) ;;
+      $p:$p|C02:C07|C07:C02|C05:C14|C17:C17) ;;
       *) continue;;
     esac
-    r=$(/verif/bin/govc check -property $p -repo $WT -no-evidence 2>&1)
+    r=$(GOVC_FULL_SECS=45 /verif/bin/govc check -property $p -repo $WT -no-evidence 2>&1)
     v=$(echo "$r" | grep -c "^VIOLATION")
     u=$(echo "$r" | grep -c "^UNDECIDED")
     obs=$(echo "$r" | grep "^VIOLATION" | sed 's/.*obligation=//' | cut -d' ' -f1 | tr '\n' ',' )
